@@ -425,7 +425,10 @@ func runPoolCase(ctx *Ctx, maxWorkers, idle int, script []string) {
 				}
 			}
 			ctx.R.Op(fmt.Sprintf("add %d", ft), "ok")
-			c.futs = append(c.futs, timeout.Call(mk(id), time.Duration(x)*time.Millisecond))
+			ctx.R.Enter()
+			fu := timeout.Call(mk(id), time.Duration(x)*time.Millisecond)
+			ctx.R.Leave()
+			c.futs = append(c.futs, fu)
 			c.settle()
 		case "cancelhold":
 			// Cancel(x) from another goroutine, parked right before it takes the dispatcher's lock
@@ -468,7 +471,9 @@ func runPoolCase(ctx *Ctx, maxWorkers, idle int, script []string) {
 			// still pending in the model's sense only if not yet popped: a popped-but-not-yet-started future cannot occur after settle
 			c.cancelled[x] = true
 			ctx.R.Op(fmt.Sprintf("cancel %d", x), "ok")
+			ctx.R.Enter()
 			c.futs[x].Cancel()
+			ctx.R.Leave()
 			c.settle()
 		case "tick":
 			c.mu.Lock()
@@ -676,7 +681,12 @@ func runPool(ctx *Ctx) {
 		} else if r.Chance(1, 6) {
 			// directed: a Call arrives while the only watcher is between its locked section and its select —
 			// the wake token must wait for it in the channel
-			script = []string{"add 50", "holdsleep", "add 500", fmt.Sprintf("add %d", []int{1, 3, 10}[r.Intn(3)]), "release", "tick 2"}
+			script = []string{"add 50", "holdsleep", "add 500", fmt.Sprintf("add %d", []int{1, 3, 10}[r.Intn(3)])}
+			if r.Chance(1, 2) {
+				// … and more Calls with ever earlier deadlines while it stands there: the wake channel fills up
+				script = append(script, "add 9", "add 4", "add 2")
+			}
+			script = append(script, "release", "tick 2")
 			if r.Chance(1, 2) {
 				script = append(script, "fire 0", "tick 12", "fire 0")
 			}
